@@ -2,6 +2,9 @@
 package c18
 
 import (
+	"encoding/json"
+
+	ae "github.com/godaddy/asherah/go/appencryption"
 	"github.com/godaddy/asherah/go/appencryption/pkg/crypto/aead"
 
 	"verifh/vx"
@@ -45,4 +48,86 @@ func AeadLayout() {
 	_, err = c.Decrypt(short, key)
 	vx.Assert("C18.short_ciphertext_rejected", err != nil)
 	vx.Reach("C18.aead_end")
+}
+
+// ---- JSON shapes (tag-driven model) ----
+
+// documented shapes, written from docs/DesignAndArchitecture.md and the cross-language feature files
+type docKeyMeta struct {
+	KeyId   string `json:"KeyId"`
+	Created int64  `json:"Created"`
+}
+
+type docKey struct {
+	Revoked       bool        `json:"Revoked,omitempty"`
+	Created       int64       `json:"Created"`
+	Key           []byte      `json:"Key"`
+	ParentKeyMeta *docKeyMeta `json:"ParentKeyMeta,omitempty"`
+}
+
+type docDRR struct {
+	Key  *docKey `json:"Key"`
+	Data []byte  `json:"Data"`
+}
+
+const (
+	shapeDRR        = `{"Key":{"Created":#number,"Key":#base64,"ParentKeyMeta":{"KeyId":#string,"Created":#number}},"Data":#base64}`
+	shapeDRRRevoked = `{"Key":{"Revoked":true,"Created":#number,"Key":#base64,"ParentKeyMeta":{"KeyId":#string,"Created":#number}},"Data":#base64}`
+	shapeSK         = `{"Created":#number,"Key":#base64}`
+)
+
+// JsonShape: SDK records serialise to the documented shape; a reference reader/writer built from the
+// documentation exchanges records with the SDK types in both directions.
+func JsonShape() {
+	rev := vx.Bool("revoked")
+	d := ae.DataRowRecord{
+		Data: vx.Bytes("data", 3),
+		Key: &ae.EnvelopeKeyRecord{
+			Revoked:       rev,
+			ID:            "must-not-be-serialised",
+			Created:       vx.Int64("created"),
+			EncryptedKey:  vx.Bytes("key", 3),
+			ParentKeyMeta: &ae.KeyMeta{ID: "_IK_p_s_p!", Created: vx.Int64("pcreated")},
+		},
+	}
+	b, err := json.Marshal(d)
+	vx.Assert("C18.json_marshal_ok", err == nil)
+	shape := vx.JSONShape(b)
+	if rev {
+		vx.Assert("C18.json_shape_revoked", shape == shapeDRRRevoked)
+	} else {
+		vx.Assert("C18.json_shape", shape == shapeDRR)
+		vx.Reach("C18.json_not_revoked")
+	}
+	// SDK writes, reference reads
+	var ref docDRR
+	vx.Assert("C18.reference_reads_sdk_json", json.Unmarshal(b, &ref) == nil)
+	ok := vx.And(vx.BytesEq(ref.Data, d.Data), ref.Key != nil && ref.Key.ParentKeyMeta != nil)
+	if ref.Key != nil && ref.Key.ParentKeyMeta != nil {
+		ok = vx.And(ok, vx.BytesEq(ref.Key.Key, d.Key.EncryptedKey))
+		ok = vx.And(ok, ref.Key.Created == d.Key.Created)
+		ok = vx.And(ok, ref.Key.Revoked == d.Key.Revoked)
+		ok = vx.And(ok, ref.Key.ParentKeyMeta.KeyId == d.Key.ParentKeyMeta.ID)
+		ok = vx.And(ok, ref.Key.ParentKeyMeta.Created == d.Key.ParentKeyMeta.Created)
+	}
+	vx.Assert("C18.reference_sees_every_field", ok)
+	// reference writes, SDK reads
+	rb, _ := json.Marshal(ref)
+	var back ae.DataRowRecord
+	vx.Assert("C18.sdk_reads_reference_json", json.Unmarshal(rb, &back) == nil)
+	same := vx.And(vx.BytesEq(back.Data, d.Data), back.Key != nil && back.Key.ParentKeyMeta != nil)
+	if back.Key != nil && back.Key.ParentKeyMeta != nil {
+		same = vx.And(same, vx.BytesEq(back.Key.EncryptedKey, d.Key.EncryptedKey))
+		same = vx.And(same, back.Key.Created == d.Key.Created)
+		same = vx.And(same, back.Key.Revoked == d.Key.Revoked)
+		same = vx.And(same, back.Key.ParentKeyMeta.ID == d.Key.ParentKeyMeta.ID)
+		same = vx.And(same, back.Key.ParentKeyMeta.Created == d.Key.ParentKeyMeta.Created)
+		vx.Assert("C18.id_is_not_on_the_wire", back.Key.ID == "")
+	}
+	vx.Assert("C18.sdk_recovers_every_field", same)
+	// a system key record (no parent) omits ParentKeyMeta and Revoked
+	sk := ae.EnvelopeKeyRecord{ID: "_SK_s_p", Created: vx.Int64("skc"), EncryptedKey: vx.Bytes("skk", 3)}
+	sb, _ := json.Marshal(sk)
+	vx.Assert("C18.json_shape_system_key", vx.JSONShape(sb) == shapeSK)
+	vx.Reach("C18.json_end")
 }
